@@ -659,6 +659,9 @@ namespace ValueFlow
             for (const Value &val : tok->values()) {
                 if (!val.isIntValue() && !val.isFloatValue())
                     continue;
+                // -x wraps around for an unsigned x, a bound on x says nothing about -x
+                if (val.bound != Value::Bound::Point && astIsUnsigned(tok))
+                    continue;
                 Value v(val);
                 if (v.isIntValue()) {
                     if (v.intvalue == LLONG_MIN)
